@@ -462,6 +462,8 @@ type vfConn struct {
 	writesAfterClose int
 	writeInFlight    int
 	nClose     int
+	writeErrHits int
+	closeT     time.Duration
 }
 
 func vfNewConn(n *vfNet, side int) *vfConn {
@@ -542,12 +544,15 @@ func (c *vfConn) Write(b []byte) (int, error) {
 	c.mu.Lock()
 	if c.writeErr != nil {
 		err := c.writeErr
+		c.writeErrHits++
 		c.mu.Unlock()
 
 		return 0, err
 	}
 	if c.closed {
-		if c.closeDone {
+		// a Write that is already on its way when Close completes is harmless (it fails); one that starts
+		// at a later virtual instant means something is still trying to send
+		if c.closeDone && c.net.now() > c.closeT {
 			c.writesAfterClose++
 		}
 		c.mu.Unlock()
@@ -563,6 +568,9 @@ func (c *vfConn) Write(b []byte) (int, error) {
 func (c *vfConn) Close() error {
 	c.mu.Lock()
 	c.nClose++
+	if !c.closed {
+		c.closeT = c.net.now()
+	}
 	c.closed = true
 	c.closeDone = true
 	c.mu.Unlock()
@@ -603,3 +611,17 @@ func (c *vfConn) SetReadDeadline(t time.Time) error {
 }
 
 func (c *vfConn) SetWriteDeadline(time.Time) error { return nil }
+
+func (c *vfConn) writeErrSeen() bool {
+	c.mu.Lock()
+	defer c.mu.Unlock()
+
+	return c.writeErrHits > 0
+}
+
+func (c *vfConn) writesAfterCloseN() int {
+	c.mu.Lock()
+	defer c.mu.Unlock()
+
+	return c.writesAfterClose
+}
